@@ -20,3 +20,8 @@ pub fn idiom_extend_ref(a: &mut Vec<u8>, b: &Vec<u8>)
 pub fn idiom_concat2(a: Vec<u8>, b: Vec<u8>) -> (r: Vec<u8>)
     ensures r@ == a@ + b@
 { [a, b].concat() }
+
+// String is a lawful hash-table key (Eq/Hash are consistent and deterministic); vstd states this for the integer
+// types only
+pub broadcast axiom fn axiom_string_obeys_key_model()
+    ensures #[trigger] vstd::std_specs::hash::obeys_key_model::<String>();
